@@ -122,9 +122,9 @@ def gen_row_tables(rs, tier: str) -> List[Dict[str, Any]]:
             rows = []
             for i, rid in enumerate(ids):
                 rows.append(tuple(rid) + tuple(cells[i * len(ckeys) : (i + 1) * len(ckeys)]))
-            # the general-map / composition battery does not depend on the cell values: at quick it is run for the
-            # first two value assignments of every record-id pattern, the inverse / permutation / agreement checks for all
-            out.append({"cols": list(rs["record_keys"]) + ckeys, "rows": rows, "kind": kind, "battery": "full" if (tier != "quick" or ai < 2) else "core"})
+            # the general-map / composition battery does not depend on the cell values: it is run for the
+            # first two (thorough: six) value assignments of every record-id pattern, the inverse / permutation / agreement checks for all
+            out.append({"cols": list(rs["record_keys"]) + ckeys, "rows": rows, "kind": kind, "battery": "full" if ai < (2 if tier == "quick" else 6) else "core"})
     # the empty table
     out.append({"cols": list(rs["record_keys"]) + ckeys, "rows": [], "kind": "float", "battery": "full"})
     return out
